@@ -132,15 +132,19 @@ Proof.
 Qed.
 Print Assumptions C05_classify_sound.
 
-(* any interleaving of Get / BatchGet / SetSnapshotTS on a snapshot with the cache returns what the
-   same program returns without a cache; nothing is cached while the version is the max timestamp *)
+(* any interleaving of Get / BatchGet / SetSnapshotTS — including calls that FAIL after part of their
+   keys were read — on a snapshot with the cache returns what the same program returns without a
+   cache; a failed call leaves the snapshot (cache and version) exactly as it was, so it caches
+   nothing, not even the pairs it did read; nothing is cached while the version is the max timestamp *)
 Theorem C05_cache_transparent :
   forall (rd : N -> key -> option value) (ops : list cop) (ts : N),
     c_run rd (mkSnap ts None) ops = u_run rd ts ops /\
-    (version (c_final rd (mkSnap ts None) ops) = maxts -> cached (c_final rd (mkSnap ts None) ops) = None).
+    (version (c_final rd (mkSnap ts None) ops) = maxts -> cached (c_final rd (mkSnap ts None) ops) = None) /\
+    (forall s k, c_step rd s (CGetErr k) = (RErr, s)) /\
+    (forall s ks got, c_step rd s (CBatchErr ks got) = (RErr, s)).
 Proof.
   intros rd ops ts. destruct (cache_transparent rd ops (mkSnap ts None) (fresh_ok rd ts)) as [H1 [_ H2]].
-  split; [exact H1|exact H2].
+  split; [exact H1|]. split; [exact H2|]. split; reflexivity.
 Qed.
 Print Assumptions C05_cache_transparent.
 
@@ -194,6 +198,6 @@ Proof. vm_compute. reflexivity. Qed.
 
 Example ex_cache :
   c_run (fun ts k => if ts <? 20 then Some [1] else None) (mkSnap 10 None)
-        [CGet [97]; CSetTS 30; CGet [97]; CSetTS maxts; CGet [97]]
-  = [RGet (Some [1]); RUnit; RGet None; RUnit; RGet None].
+        [CGet [97]; CBatchErr [[97]; [98]] [[98]]; CGet [98]; CSetTS 30; CGet [97]; CSetTS maxts; CGet [97]]
+  = [RGet (Some [1]); RErr; RGet (Some [1]); RUnit; RGet None; RUnit; RGet None].
 Proof. vm_compute. reflexivity. Qed.
